@@ -221,6 +221,29 @@ def check_table_pair(ck, repo, cls_name, save_name, load_name, series_fields, sc
                 ok = False
             ck.ob("W2", ld.qualname, "with complete data the field %s is restored" % fld, where_r, ok,
                   "every value of the file is present on this path, yet the loader leaves the field empty", found=repr(x)[:120])
+    # W6: every restored per-step series has one element per row of the table — also the all-None series built for a column that
+    # is empty in the file ( [None] * <number of rows> )
+    def _len(x):
+        if isinstance(x, ListV):
+            if x.kind == "rep":
+                return x.n
+            if x.kind == "fam":
+                return x.hi - x.lo
+            if x.kind == "lit":
+                return Rat.const(len(x.items))
+        return None
+    for _, o in results:
+        if o.kind != "return" or not isinstance(o.value, ObjV):
+            continue
+        lens = {fld: _len(o.value.fields.get(fld)) for fld in series_fields}
+        known = [(fld, n) for fld, n in lens.items() if n is not None and not n.is_const()]
+        for fld, n in known:
+            # the number of rows: len(<table>) or, the same thing, the length of one of its columns
+            norm = re.sub(r"len\((\w+)\.\w+\)", r"len(\1)", str(n))
+            ck.ob("W6", ld.qualname, "restored series %s has one element per row of the table" % fld, where_r,
+                  bool(re.fullmatch(r"len\(\w+\)", norm)),
+                  "a series whose length is not the table's row count cannot be the stored one (it is paired with the others step by step)",
+                  expected="len(<table>)", found=str(n))
     check_recombination(ck, ld, fields)
     return w, order, fields, results
 
